@@ -35,7 +35,9 @@ impl Game {
         Self::from_board(Board::starting_position(), search_depth)
     }
 
-    pub fn from_board(board: Board, search_depth: u8) -> Self {
+    pub fn from_board(mut board: Board, search_depth: u8) -> Self {
+        // The position a game starts from is its first occurrence.
+        board.count_current_position();
         Self {
             board,
             move_history: Vec::new(),
@@ -75,6 +77,15 @@ impl Game {
 
     pub fn save_move(&mut self, chess_move: ChessMove) {
         self.move_history.push(chess_move);
+        self.register_position_after_move();
+    }
+
+    /// Registers the position that has just arisen for repetition detection. Callers flip
+    /// the turn after a successful move, so at this point it is the opponent's move.
+    fn register_position_after_move(&mut self) {
+        self.board.toggle_turn();
+        self.board.count_current_position();
+        self.board.toggle_turn();
     }
 
     pub fn most_recent_move(&self) -> Option<ChessMove> {
